@@ -28,6 +28,7 @@ from ..framework import lean_driver, InfraError, REPO, PY
 PROP = "C11"
 LEAN_TARGETS = ["Eliot.Properties.C11"]
 AUDIT = "Eliot/Audit/C11.lean"
+GENERATED_OBLIGATIONS = ["Generated.fileDestCall = EJ.stdShape"]
 THEOREMS = ["EJ.C11.crash_prefix", "EJ.C11.acked_after", "EJ.C11.reader_drops_only_fragment", "EJ.C11.crash_readable",
             "EJ.C11.crash_readable_file", "EJ.C11.crash_parse"]
 RULE = ("program = 1-6 top-level tasks of nested start_action / log_message (depth <= 3, 3-60 messages, fields incl. strings "
@@ -216,6 +217,20 @@ def run_child(spec_in, parent_kill_delay=None, timeout=60):
                 killed_by_parent=killed_by_parent, run_s=(t_end - t_ready) if t_ready and t_end else None)
 
 
+def import_failure(res):
+    """did the child die before it was ready because the eliot package (or what it imports) failed to load / install its
+    destination?  That is a failure of the code under test, not of the harness."""
+    if res["ready"] or res.get("killed_by_parent"):
+        return None
+    err = res.get("stderr") or ""
+    if res["rc"] not in (None, 0) and ("Error" in err or "Exception" in err) and ("eliot" in err or str(REPO) in err):
+        return err.strip().splitlines()[-1][:300] if err.strip() else "no message"
+    return None
+
+
+TIE = "correspondence:crash-model"
+
+
 # ---- oracle ----------------------------------------------------------------------------------------
 
 def line_matches(msg, sk):
@@ -261,7 +276,11 @@ def oracle(ctx, case, sk, res):
     obs = dict(complete=len(complete), frag=len(frag), acks=acks, total=total)
     bad = lambda what: ctx.violation(what, case, extra=obs)  # noqa
     if not res["ready"]:
-        raise InfraError("C11 child died before it was ready: rc=%s %s" % (res["rc"], res["stderr"]))
+        why = import_failure(res)
+        if why is None:
+            raise InfraError("C11 child died before it was ready: rc=%s %s" % (res["rc"], res["stderr"]))
+        ctx.broken_tie(TIE, "the eliot package no longer loads in the child process: %s" % why, case)
+        return False
     if len(complete) < acks:
         bad("%d logging calls had returned but only %d complete lines are in the file" % (acks, len(complete)))
         return False
@@ -377,6 +396,12 @@ def run(ctx):
     rng = ctx.rng("gen")
     # which eliot does the child import?
     probe = run_child(dict(ops=[{"op": "msg", "type": "m:1", "fields": {}}], sink="raw", chunk=4096, kill=None, whoami=True))
+    why = import_failure(probe)
+    if why is not None:
+        # nothing can be logged at all: no kill point can be exercised, the correspondence cannot be established
+        ctx.case({"kind": "probe"}, nontrivial=False, tags=["child-import-failed"])
+        ctx.broken_tie(TIE, "the eliot package no longer loads in the child process (import eliot / to_file): %s" % why, {"kind": "probe"})
+        return
     who = probe.get("who") or ""
     ctx.extra["child_eliot_file"] = who
     if not os.path.realpath(who).startswith(os.path.realpath(str(REPO)) + os.sep):
